@@ -240,7 +240,9 @@ func (m *Message) tryCompressPayload(enableCompression bool) error {
 		return buf.Err
 	}
 	compressedPayload := buf.Bytes()
-	if m.Flags&Compressed == 0 && enableCompression {
+	// The flag describes the bytes written below, not the ones this message was decoded from.
+	m.Flags &^= Compressed
+	if enableCompression {
 		switch m.Payload.(type) {
 		case *payload.Headers, *payload.MerkleBlock, payload.NullPayload,
 			*payload.Inventory, *payload.MPTInventory:
